@@ -14,6 +14,13 @@ RULE = ("private keys {1, 2, n-1, n-2, (n-1)/2, random, leading-zero} x both com
         "addresses: hashes with k leading zero bytes for every k in 0..20, all 256 prefix bytes, decoded lengths 24/26 under a valid "
         "checksum, extra / missing leading '1', single-character substitutions (sampled in quick, all positions in thorough); locking "
         "and unlocking scripts for own key under several prefixes, for a hash differing in one bit, for a foreign key; "
+        "deterministic value-dependent stream: keys 2^248-1, 2^248, 2^255, 0xff, 0x10, 2^128 and keys whose public x / y / HASH160 "
+        "have leading zero bytes (d = 153, 122, 44629, 182, 411, 202760) through every key/pub/address op in both forms; every "
+        "prefix byte 0..255 through from_string (35-character strings from 0x90); WIF payload lengths 0..70 x {as is, last byte 01, "
+        "last byte 00, two marker bytes}; own / other-compression-form / foreign key unlocking under prefix classes 00, 6f, 05, 90, ff; "
+        "all fourteen sighash flags; PublicKey::from_hex text variants; ChainParams::{mainnet,testnet,regtest,stn,default}; "
+        "hashes whose hex looks numeric or like opcodes; from_random (behavioural); every pub fn of private_key.rs, public_key.rs and "
+        "address/mod.rs except sign/verify_message (C05) and encrypt/decrypt_message (C11) is driven by some op; "
         "non-trivial = the model returns a value (not an early error); distinct by (op, arguments)")
 TRUSTED = ["hand-written Gallina model coq/Model/Keys.v of src/keypair/{private_key,public_key}.rs and src/address/mod.rs (tied by this "
            "correspondence run), including its reading of elliptic_curve SecretKey::from_be_bytes, sec1 EncodedPoint::from_bytes/compress, "
@@ -262,6 +269,70 @@ def generate(rng, tier):
     A("addr.unlocking", "00", hash160(pk).hex(), pk.hex(), der(1, 1).hex(), "00")           # not a sighash flag
     A("addr.unlocking", "00", hash160(pk).hex(), pk.hex(), "3006020101020100", "41")        # s = 0: not a signature
     A("pub.unlock_own", pk.hex(), "6f", der(1, 1).hex(), "04")
+
+    # ============================================================ audit additions (deterministic)
+    # --- value-dependent triggers: private keys with leading zero bytes / top bit set, public keys whose x or y has
+    #     leading zero bytes (d = 153: x < 2^248, d = 122: y < 2^248, d = 44629: x < 2^240), HASH160 with a leading
+    #     zero byte (d = 182 compressed, d = 411 uncompressed, d = 202760: two zero bytes, compressed)
+    special = [2 ** 248 - 1, 2 ** 248, 2 ** 255, 0xff, 0x10, 2 ** 128, 153, 122, 44629, 182, 411, 202760]
+    pfx_classes = ["00", "6f", "05", "90", "ff"]          # mainnet, testnet, other < 0x90, >= 0x90 (35-character strings)
+    for i, d in enumerate(special):
+        A("key.from_bytes", kb(d)[1:].hex())               # 31 bytes: the padding must not be dropped on the way in
+        A("key.from_hex", text(kb(d).hex().lstrip("0") or "0"))
+        for c in (0, 1):
+            A("key.to_wif", kb(d).hex(), c)
+            A("key.from_wif", text(wif(kb(d), c)))
+            A("key.from_hex", text(kb(d).hex()))
+            A("key.to_pub", kb(d).hex(), c)
+            A("key.address", kb(d).hex(), c, pfx_classes[(i + c) % 5])
+            e = pub_of(d, bool(c))
+            A("pub.parse", e.hex()); A("pub.from_hex", text(e.hex())); A("pub.address", e.hex())
+            A("pub.compress", e.hex()); A("pub.decompress", e.hex())
+    # --- PublicKey::from_hex: case, odd length, bad characters, prefixes
+    g1 = pub_of(1, True).hex()
+    for s in [g1, g1.upper(), g1[:10].upper() + g1[10:], g1[:-1], g1 + "0", "0x" + g1, " " + g1, g1 + " ", "", "00", "zz",
+              pub_of(1, False).hex(), pub_of(1, False).hex().upper(), "02" + "00" * 31 + "05", "04" + "00" * 64, g1[:-2] + "gg"]:
+        A("pub.from_hex", text(s))
+    A("key.random")
+    # --- every prefix byte through from_string (strings for prefixes >= 0x90 have 35 characters)
+    for pre in range(256):
+        A("addr.from_string", text(address(pre, hashes[(pre * 7) % 21])))
+    for pre in (0x8f, 0x90, 0x91, 0xfe, 0xff):
+        for h in (hashes[0], hashes[1], hashes[20]):
+            A("addr.set_chain", text(address(0, h)), "%02x" % pre)
+            A("addr.locking", "%02x" % pre, h.hex())
+    # --- named chain parameters
+    for name in ("mainnet", "testnet", "regtest", "stn", "default"):
+        A("addr.chain_named", hashes[2].hex(), name)
+        A("addr.chain_named", hashes[20].hex(), name)
+    A("addr.chain_named", hashes[2][:19].hex(), "testnet")
+    # --- hashes whose hex text looks like numbers / opcodes in the ASM that the script builders go through
+    for h in [b"\x11" * 20, b"\x10" * 20, b"\x00" * 19 + b"\x10", bytes(range(0x50, 0x64)), b"\xac" * 20, b"\x76\xa9\x14" + b"\x88" * 17,
+              bytes.fromhex("1234567890123456789012345678901234567890")]:
+        A("addr.locking", "00", h.hex()); A("addr.to_string", "00", h.hex()); A("addr.from_string", text(address(0x6f, h)))
+    # --- WIF payload lengths 0..70 under a valid checksum, for every marker-byte situation
+    long_body = b"\x80" + base_k + b"\x01" + bytes((7 * j + 3) % 251 + 2 for j in range(40))
+    for n in range(0, 71):
+        p = long_body[:n]
+        A("key.from_wif", text(b58check(p)))                                    # as it comes (ends in 01 only for n = 34)
+        if n >= 1:
+            A("key.from_wif", text(b58check(p[:-1] + b"\x01")))                 # last byte 01 at every length
+            A("key.from_wif", text(b58check(p[:-1] + b"\x00")))                 # last byte 00 at every length
+        if n >= 2:
+            A("key.from_wif", text(b58check(p[:-2] + b"\x01\x01")))             # two marker bytes
+    # --- unlocking: own key, the other compression form of the same point, a foreign key — under every prefix class
+    for i, d in enumerate([ks[6], 153, 182]):
+        for c in (True, False):
+            own = pub_of(d, c); other_form = pub_of(d, not c); foreign = pub_of(d + 1, c)
+            h = hash160(own)
+            for pre in pfx_classes:
+                A("pub.unlock_own", own.hex(), pre, der(*sigs[i]).hex(), "41")
+                A("addr.unlocking", pre, h.hex(), own.hex(), der(*sigs[i]).hex(), "c1")
+                A("addr.unlocking", pre, h.hex(), other_form.hex(), der(*sigs[i]).hex(), "41")
+                A("addr.unlocking", pre, h.hex(), foreign.hex(), der(*sigs[i]).hex(), "41")
+    # every sighash flag value, signatures whose DER has leading-zero / high-bit integers
+    for fl in (0x40, 0x01, 0x02, 0x03, 0x80, 0x41, 0x42, 0x43, 0xc1, 0xc2, 0xc3, 0x81, 0x82, 0x83):
+        A("pub.unlock_own", pub_of(ks[6], True).hex(), "6f", der(2 ** 255 + 1, 2 ** 247).hex(), "%02x" % fl)
     return cases
 
 
